@@ -200,6 +200,8 @@ func runC01(c *eng.Ctx) {
 
 	// ---- 2c. rollup: three ordered manifest commits (target output+references, source marks, target references dropped) -----------
 	c.Rule("ORDER", "kv.family.rollup{commit<clean references}", func() { rollupCommitBeforeClean(c) })
+	c.Rule("SYMMETRY", famT+"{reference key = (source store, source family id, file)}", func() { referenceKeySymmetry(c) })
+	c.Rule("PROV", "kv{edit log family id = the committing family}", func() { editLogOwnID(c) })
 
 	c.Rule("GUARD", "kv{a table builder is abandoned only when it holds no key}", func() { abandonOnlyWhenNoKeys(c) })
 
@@ -503,7 +505,9 @@ func runC01(c *eng.Ctx) {
 		}
 		c.Check(n >= 1, "id-assigned", nil, f, "CreateFamily assigns the id of a new family", "")
 		// the sequence never moves to a caller-supplied value
-		for _, fn := range p.FuncsWithPrefix("kv.store.") {
+		seqFns := append(p.FuncsWithPrefix("kv.store."), p.FuncsWithPrefix("kv.newStore")...)
+		nSeq := 0
+		for _, fn := range seqFns {
 			for _, b := range fn.Blocks {
 				for _, in := range b.Instrs {
 					fa, method, call := eng.AtomicOp(in)
@@ -514,9 +518,16 @@ func runC01(c *eng.Ctx) {
 					v := args[len(args)-1]
 					c.Check(!eng.DependsOnField(v, "kv.FamilyOption.ID") || p.FuncKey(fn) != "kv.store.CreateFamily", "sequence-set@"+p.FuncKey(fn), in, fn,
 						"the family sequence is set only from the persisted store info (on open), never from a CreateFamily argument", "stores "+p.Desc(v))
+					if p.FuncKey(fn) != "kv.store.CreateFamily" {
+						nSeq++
+						// on open the sequence continues after the largest persisted ID (ids are not dense: a failed OPTIONS write burns one)
+						c.Check(eng.DependsOnField(v, "kv.FamilyOption.ID"), "sequence-restored-from-ids@"+p.FuncKey(fn), in, fn,
+							"on open the family sequence is restored from the persisted family ids (their maximum), not from how many families there are", "stores "+p.Desc(v))
+					}
 				}
 			}
 		}
+		c.Check(nSeq >= 1, "sequence-restored-on-open", nil, nil, "opening a store restores the family sequence", fmt.Sprintf("%d stores outside CreateFamily", nSeq))
 	})
 
 	c.Rule("OWNER", "kv{file-system mutators}", func() {
